@@ -438,15 +438,23 @@ class Checker:
         # reopen
         try:
             from numbers_parser import Document
-            d2 = Document(dst_path)
-            for s in d2.sheets:
-                for t in s.tables:
-                    _ = t.num_rows, t.num_cols
-                    if t.num_rows * t.num_cols <= 4000:
-                        for row in t.rows():
-                            for c in row:
-                                _ = c.value
+            from .c06 import LookupWatch
+            with LookupWatch() as lw:
+                d2 = Document(dst_path)
+                for s in d2.sheets:
+                    for t in s.tables:
+                        _ = t.num_rows, t.num_cols
+                        if t.num_rows * t.num_cols <= 4000:
+                            for row in t.rows():
+                                for c in row:
+                                    _ = c.value
             ctx.count("oracle-reopen")
+            # a cell record of a rewritten table that points at a string/rich-text/format entry its table's lookup list
+            # does not hold is dangling structure as well (the reader silently shows '' for it)
+            added_tables = {t["id"] for t in a["tables"] if t["rewritten"]}
+            ev = [e for e in lw.events if e[1] in added_tables and e[2] != 0]
+            if ev and not case.get("base"):
+                sigs.append(("dangling-list-key:" + str(ev[0][0]), f"table {ev[0][1]}: key {ev[0][2]} is used by a cell record but missing from the table's {ev[0][0]} list ({len(ev)} such lookups)"))
         except Exception as e:  # noqa: BLE001
             sigs.append((f"reopen-raises:{type(e).__name__}", f"{type(e).__name__}: {e}"[:200]))
         return sigs
@@ -509,7 +517,7 @@ def run_case(tmp: Path, case: dict, chk: Checker | None = None, ctx: Ctx | None 
         return [(f"open-raises:{type(e).__name__}", str(e)[:100])] if case.get("must_open") else []
     sigs = []
     for op in case.get("ops", []) + [["SV"]]:
-        if op[0] == "SV":
+        if op[0] in ("SV", "SS"):
             try:
                 src, dst, alloc = r.save()
             except Exception as e:  # noqa: BLE001
@@ -518,6 +526,8 @@ def run_case(tmp: Path, case: dict, chk: Checker | None = None, ctx: Ctx | None 
                     chk.ctx.notes.append(f"save raised {type(e).__name__} for case {case.get('name')} (no package produced; outside C07)")
                 break
             sigs += chk.check(case, src, dst, alloc, keep=case.get("keep", False))
+            if op[0] == "SS":
+                continue      # the same Document object goes on and is saved again later
             try:
                 r.continue_from(dst)
             except Exception:  # noqa: BLE001 - already reported by check() as reopen-raises
@@ -764,7 +774,7 @@ def random_case(ctx: Ctx, chk: Checker, name: str, base, length: int, weights=No
         else:
             op = gen_op(rng, r, weights)
         case["ops"].append(op)
-        if op[0] == "SV":
+        if op[0] in ("SV", "SS"):
             try:
                 src, dst, alloc = r.save()
             except Exception as e:  # noqa: BLE001
@@ -772,6 +782,8 @@ def random_case(ctx: Ctx, chk: Checker, name: str, base, length: int, weights=No
                 ctx.notes.append(f"save raised {type(e).__name__}: {str(e)[:120]} in history {name} (no package produced; outside C07)")
                 return case
             sigs += chk.check(case, src, dst, alloc, keep=True)
+            if op[0] == "SS":
+                continue
             try:
                 r.continue_from(dst)
             except Exception:  # noqa: BLE001 - already reported by check() as reopen-raises
